@@ -437,7 +437,7 @@ class Check:
                         k = min(len(cases), getattr(prop, "LIVE_PROBE", {}).get(self.tier, 60 if self.tier == "quick" else 400))
                         sample = rng.sample(cases, k)
                         for a_case in sample:
-                            b_case = rng.choice(cases)
+                            b_case = a_case if rng.random() < 0.25 else rng.choice(cases)   # also the SAME call again (value-keyed caches)
                             r = liveprobe.probe_pair(prop.impl, a_case, b_case)
                             n_probe += 1
                             if r is not None:
